@@ -231,4 +231,25 @@ end
 def Doc {N} (ops : NumOps N) (text : Bytes) (v : Value N) : Prop :=
   ∃ w1 t w2, Ws w1 ∧ Ws w2 ∧ Val ops t v ∧ text = w1 ++ t ++ w2
 
+/-! ## IEEE 754 binary64 bit patterns (for typed extraction) -/
+
+/-- the finite double `bits` has exactly the integer value `n`:
+`(-1)^s · mant · 2^e = n`, stated without negative powers -/
+def DblIsInt (bits : Nat) (n : Int) : Prop :=
+  dblExpField bits ≠ 2047 ∧
+  ∃ a : Nat, n = (if dblNeg bits then -(a : Int) else (a : Int)) ∧
+    (if dblExp2 bits ≥ 0 then a = dblMant bits * 2 ^ (dblExp2 bits).toNat
+     else a * 2 ^ (- dblExp2 bits).toNat = dblMant bits)
+
+/-! ## Hypotheses about the external numeric conversions (libc/libstdc++), never axioms -/
+
+/-- On the set `fin` of numbers, printing produces an RFC 8259 number whose exact decimal
+converts to `rt x` ("what survives one trip through text"; `rt x = x` up to the printed
+precision is IEEE arithmetic and not part of this law). -/
+def NumLaw {N} (ops : NumOps N) (fin : N → Prop) (rt : N → N) : Prop :=
+  ∀ x, fin x → ∃ d, Number (ops.print x) d ∧ ops.ofDec d = some (rt x)
+
+/-- a second trip changes nothing -/
+def NumIdem {N} (fin : N → Prop) (rt : N → N) : Prop := ∀ x, fin x → fin (rt x) ∧ rt (rt x) = rt x
+
 end Cppcms.C11.Spec
